@@ -19,15 +19,9 @@ fn gpos_cache() -> LayoutCache<GPOS> {
 }
 
 /// SinglePos format 1 (one value for every covered glyph) and format 2 (one value per coverage
-/// index).
-// @bound SinglePos format 1 or 2 (symbolic), coverage format 1 with 2 symbolic glyphs, valueFormat 0x0005 (xPlacement + xAdvance), every value, every query glyph
-#[kani::proof]
-#[kani::unwind(10)]
-#[kani::stub(allsorts::binary::read::ReadScope::read_cache, crate::util::stub_read_cache)]
-#[kani::stub(std::collections::hash_map::RandomState::new, crate::util::stub_random_state)]
-fn c05_single_pos() {
+/// index); the format is fixed per harness.
+fn single_pos(fmt: u16) {
     let mut buf: [u8; 24] = kani::any();
-    let fmt: u16 = if kani::any() { 1 } else { 2 };
     put16(&mut buf, 0, fmt);
     put16(&mut buf, 2, 16); // coverage offset
     put16(&mut buf, 4, 0x0005);
@@ -52,10 +46,27 @@ fn c05_single_pos() {
             assert!(adj.y_placement == 0 && adj.y_advance == 0);
         }
     }
-    kani::cover!(fmt == 2 && idx == Some(1), "second record of format 2");
-    kani::cover!(fmt == 1 && idx == Some(1));
+    kani::cover!(idx == Some(1), "second covered glyph");
     std::mem::forget(sp);
     std::mem::forget(cache);
+}
+
+// @bound SinglePos format 1, coverage format 1 with 2 symbolic glyphs, valueFormat 0x0005 (xPlacement + xAdvance), every value, every query glyph
+#[kani::proof]
+#[kani::unwind(10)]
+#[kani::stub(allsorts::binary::read::ReadScope::read_cache, crate::util::stub_read_cache)]
+#[kani::stub(std::collections::hash_map::RandomState::new, crate::util::stub_random_state)]
+fn c05_single_pos_format1() {
+    single_pos(1);
+}
+
+// @bound SinglePos format 2 with 2 value records, coverage format 1 with 2 symbolic glyphs, valueFormat 0x0005, every value, every query glyph
+#[kani::proof]
+#[kani::unwind(10)]
+#[kani::stub(allsorts::binary::read::ReadScope::read_cache, crate::util::stub_read_cache)]
+#[kani::stub(std::collections::hash_map::RandomState::new, crate::util::stub_random_state)]
+fn c05_single_pos_format2() {
+    single_pos(2);
 }
 
 /// PairPos format 1: the pair set of the first glyph's coverage index is searched for the second
